@@ -20,6 +20,8 @@ import struct
 from vlib.core import run_cmd, VERIF
 from vlib.build import BuildError
 from tools.gen import marsh as gen_marsh
+from tools.gen import asm as gen_asm
+from tools.gen import bytecode as gen_bytecode
 from tools.gen.csrc import ExtractError
 
 THEOREMS = ["JanetModel.Props.C09." + t for t in (
@@ -27,6 +29,7 @@ THEOREMS = ["JanetModel.Props.C09." + t for t in (
     "read64_push64",                                                                     # size codec
     "roundtrip_graph", "ids_agree", "roundtrip_graph_top", "roundtrip_tree",            # data graphs: sharing and cycles
     "read_total_inbounds", "unmarshal_nil",                                              # decoder stays inside the buffer
+    "asm_operand_roundtrip", "asm_operand_rejects",                                      # assembler operand fields (asm . disasm)
 )]
 
 ENV = dict(os.environ, ASAN_OPTIONS="detect_leaks=0:abort_on_error=0", UBSAN_OPTIONS="print_stacktrace=1")
@@ -258,6 +261,93 @@ def proto_type_error(root, objs):
     return False
 
 
+# --------------------------------------------------------------------------- asm . disasm: every operand field at its boundaries
+FIELD_VALUES = {
+    # (kind, nbytes, signed) -> in-range boundary values, out-of-range neighbours
+    ("slot", 1, False): ([0, 1, 255], [-1, 256]),
+    ("slot", 2, False): ([0, 255, 256, 65535], [-1, 65536]),
+    ("integer", 2, True): ([-32768, -32767, -1, 0, 1, 32767], [-32769, 32768]),
+    ("integer", 2, False): ([0, 1, 65535], [-1, 65536]),
+    ("integer", 1, True): ([-128, -127, -1, 0, 1, 127], [-129, 128]),
+    ("integer", 1, False): ([0, 1, 255], [-1, 256]),
+    ("label", 3, True): ([-70000, -32769, -1, 0, 1, 32768, 70000], []),
+    ("label", 2, True): ([-32768, -32767, -1, 0, 1, 32767], [-32769, 32768]),
+    ("type", 2, False): ([0, 1, 65535], [65536]),
+    ("constant", 2, False): ([0, 255, 256, 65535], [-1]),
+    ("funcdef", 2, False): ([0, 255, 256], [-1]),
+}
+
+
+def asm_cases(tree, thorough):
+    """one assembler description per (opcode of the generated table, operand, boundary value)"""
+    slack, layouts, mnem = gen_asm.extract(tree)
+    ops, types, jint = gen_bytecode.extract(tree)
+    cases = []
+    skipped = []
+    for (name, num), ty in zip(ops, types):
+        fields = layouts[ty]
+        if any(f[0] == "environment" for f in fields):
+            skipped.append(name)      # needs enclosing assemblers; covered by compiled nested closures below
+            continue
+        base = [1 if f[0] == "label" else 0 for f in fields]
+        combos = [(list(base), True)]
+        for i, f in enumerate(fields):
+            key = (f[0], f[2], f[3])
+            if key not in FIELD_VALUES:
+                raise ExtractError("no boundary values for operand kind %r" % (key,))
+            good, bad = FIELD_VALUES[key]
+            if thorough and key == ("label", 3, True):
+                good = good + [-8388608]
+            for v in good:
+                a = list(base); a[i] = v; combos.append((a, True))
+            for v in bad:
+                a = list(base); a[i] = v; combos.append((a, False))
+        for args, ok in combos:
+            pre = post = 0
+            for f, v in zip(fields, args):
+                if f[0] == "label":
+                    pre, post = max(0, -v), max(0, v)
+            need_consts = any(f[0] == "constant" for f in fields)
+            need_defs = any(f[0] == "funcdef" for f in fields)
+            instr = "(%s%s)" % (mnem[name], "".join(" %d" % v for v in args))
+            desc = ("(asm {:slotcount 65536 :arity 0 %s%s:bytecode (array/concat (array/new-filled %d '(noop)) @['%s] (array/new-filled %d '(noop)) @['(retn)])})"
+                    % (":constants (array/new-filled 65536 1) " if need_consts else "",
+                       ":defs (array/new-filled 257 {:bytecode ['(retn)] :slotcount 1}) " if need_defs else "", pre, instr, post))
+            cases.append({"line": "A " + desc, "op": name, "num": num, "args": args, "pos": pre, "expect_ok": ok, "instr": instr})
+    return cases, skipped
+
+
+def compiled_cases(ctx, thorough):
+    """source functions whose bytecode has immediates / literals / slots / jumps / constants at field boundaries"""
+    out = []
+    ks = [-32769, -32768, -32767, -257, -256, -255, -129, -128, -127, -2, -1, 0, 1, 2, 126, 127, 128, 255, 256, 32766, 32767, 32768, 65535, 65536,
+          2147483647, -2147483648, 0.5]
+    small = [k for k in ks if isinstance(k, int) and abs(k) <= 300]
+    for op in ("+", "-", "*", "/", "%", "<", ">", "<=", ">=", "=", "not=", "blshift", "brshift", "brushift", "band", "bor", "bxor", "div", "mod"):
+        for k in small:
+            out.append("R (fn [x] (%s x %d))" % (op, k))
+            out.append("R (fn [x] (%s %d x))" % (op, k))
+    for k in ks:
+        out.append("R (fn [x] %s)" % k)
+        out.append("R (fn [x] (if (= x 1) %s (+ x %s)))" % (k, k))
+        out.append("R (fn [x] (fn [] (+ x %s)))" % k)
+    # nested closures: environments at depth 0..3, upvalue slots
+    out.append("R (fn [x] (var a x) ((fn [] (var b (+ a 1)) ((fn [] (set a (+ a b)) ((fn [] (set b (+ b -128)) (+ a b x))))))))")
+    for n in (250, 256, 300, 700):
+        # far slots: n live locals
+        body = " ".join("(def a%d (+ a%d %d))" % (i + 1, i, (i % 7) - 3) for i in range(n))
+        out.append("R (fn [x] (def a0 x) %s (+ a0 a%d a%d a%d))" % (body, n // 2, n - 1, n))
+        # many constants
+        out.append("R (fn [x] (get [%s] (mod (if (int? x) x 0) %d)))" % (" ".join('"s%d"' % i for i in range(n)), n))
+        out.append("R (fn [x] (case x %s :none))" % " ".join('%d "k%d"' % (i, i) for i in range(n)))
+    for n in ([100, 20000] if not thorough else [100, 9000, 20000, 40000]):
+        body = " ".join("(set y (+ y %d))" % ((i % 5) - 2) for i in range(n))
+        out.append("R (fn [x] (var y 0) (if (= x 1) (do %s) (set y -1)) y)" % body)                       # long forward jumps
+        out.append("R (fn [x] (var y 0) (var i 0) (while (< i (mod (if (int? x) x 1) 3)) %s (++ i)) y)" % body)  # long backward jump
+    return out
+
+
+
 def run(ctx):
     quick = ctx.tier == "quick"
     broken = []
@@ -268,6 +358,8 @@ def run(ctx):
         ctx.build.boot()
         ctx.gen("Marsh.lean", gen_marsh.render(ctx.build.tree))
         lb = gen_marsh.extract(ctx.build.tree)[0]
+        ctx.gen("Bytecode.lean", gen_bytecode.render(ctx.build.tree))
+        ctx.gen("Asm.lean", gen_asm.render(ctx.build.tree))
     except ExtractError as e:
         broken.append("translator tools/gen/marsh.py: %s" % e)
         ctx.broken.append(broken[-1])
@@ -550,6 +642,91 @@ def run(ctx):
         stats["code"] = cstats
         ctx.say("code objects: %r" % cstats)
 
+    # (D5/E3) asm . disasm at operand level: driven by the generated opcode table
+    astats = {}
+    if janet:
+        try:
+            ctx.gen("Bytecode.lean", gen_bytecode.render(ctx.build.tree))
+            acases, askipped = asm_cases(ctx.build.tree, not quick)
+            hxa = ctx.build.harness("plain", "c09asmwords", [os.path.join(H, "asmwords.c")])
+        except (ExtractError, BuildError) as e:
+            acases, askipped, hxa = [], [], None
+            broken.append("asm operand table / harness: %s" % str(e)[-400:])
+            ctx.broken.append(broken[-1])
+        ccases = compiled_cases(ctx, not quick)
+        if hxa:
+            alines = [c["line"] for c in acases] + ccases
+            chunks = [alines[i::nproc] for i in range(nproc)]
+            def runa(ch):
+                rc, out, err = run_cmd([hxa], input=("\n".join(ch) + "\n").encode(), timeout=3000, env=ENV)
+                return rc, out.decode(errors="replace").splitlines(), err.decode(errors="replace")[-2000:]
+            with cf.ThreadPoolExecutor(nproc) as ex:
+                ares = list(ex.map(runa, chunks))
+            aout = {}
+            for ch, (rc, out, err) in zip(chunks, ares):
+                for l, o in zip(ch, out):
+                    aout[l] = o
+                if rc != 0 or len(out) != len(ch):
+                    bad = ch[len(out)] if len(out) < len(ch) else "?"
+                    violations.append(("asm-harness-crash", {"kind": "asm", "line": bad[:2000], "rc": rc, "stderr": err},
+                                       "asm/disasm harness crashed on %s" % bad[:200]))
+            mlines = ["asmword %d %s" % (c["num"], " ".join(str(v) for v in c["args"])) for c in acases]
+            mo = ctx.model(mlines, exe=exe) if exe else None
+            astats = {"table_cases": len(acases), "compiled_cases": len(ccases), "opcodes": len(set(c["op"] for c in acases)),
+                      "skipped_opcodes": askipped, "rejected_out_of_range": 0, "word_diffs": 0, "roundtrip_failures": 0}
+            adiffs = []
+            for k, c in enumerate(acases):
+                o = aout.get(c["line"])
+                if o is None:
+                    continue
+                mw = mo[k] if mo else None
+                if o.startswith("ok "):
+                    _, wf, wg = o.split(" ", 2)
+                    word = dict(p.split(":") for p in wf.split("/")[0].split(";")[0].split(",") if ":" in p).get(str(c["pos"]), "00000000")
+                    if wf != wg:
+                        astats["roundtrip_failures"] += 1
+                        violations.append(("asm-disasm-words:" + c["op"], {"kind": "asm", "line": c["line"][:3000], "instruction": c["instr"], "result": o[:600]},
+                                           "(asm (disasm f)) has different bytecode than f for %s" % c["instr"]))
+                    if not c["expect_ok"]:
+                        violations.append(("asm-accepts-out-of-range:" + c["op"], {"kind": "asm", "line": c["line"][:3000], "instruction": c["instr"], "word": word},
+                                           "assembler accepted out-of-range operand in %s and produced word %s" % (c["instr"], word)))
+                    if mw is not None and mw != word:
+                        astats["word_diffs"] += 1
+                        adiffs.append({"instruction": c["instr"], "impl_word": word, "model": mw})
+                else:
+                    if c["expect_ok"]:
+                        # an encodable operand was refused: (asm (disasm f)) cannot work for a function containing it
+                        astats["roundtrip_failures"] += 1
+                        violations.append(("asm-rejects-encodable-operand", {"kind": "asm", "line": c["line"][:3000], "instruction": c["instr"], "result": o[:400],
+                                                                            "janet": "(asm {:slotcount 65536 :bytecode '[%s (retn)]})" % c["instr"]},
+                                           "assembler refuses %s, an operand value the instruction word can hold: %s" % (c["instr"], o[:200])))
+                    else:
+                        astats["rejected_out_of_range"] += 1
+                    if mw is not None and (mw != "err") != c["expect_ok"]:
+                        adiffs.append({"instruction": c["instr"], "impl": o[:200], "model": mw})
+            for l in ccases:
+                o = aout.get(l)
+                if o is None:
+                    continue
+                if o.startswith("ok "):
+                    _, wf, wg = o.split(" ", 2)
+                    if wf != wg:
+                        astats["roundtrip_failures"] += 1
+                        violations.append(("asm-disasm-words:compiled", {"kind": "asm", "line": l[:3000], "result": o[:600]},
+                                           "(asm (disasm f)) has different bytecode than f for %s" % l[2:200]))
+                elif o.startswith("err1"):
+                    ctx.notes.append("asm generator: source does not compile: %s -> %s" % (l[:120], o[:120]))
+                else:
+                    astats["roundtrip_failures"] += 1
+                    tag = "asm-disasm-raises" if o.startswith("err2") else "asm-disasm-behaviour"
+                    violations.append((tag, {"kind": "asm", "line": l[:3000], "result": o[-600:], "janet": "(asm (disasm %s))" % l[2:3000]},
+                                       "(asm (disasm f)) %s for f = %s: %s" % ("raises" if o.startswith("err2") else "behaves differently", l[2:160], o.split(" ", 2)[-1][-200:])))
+            if adiffs:
+                broken.append("correspondence model/impl on instruction words: %d differences, first %s" % (len(adiffs), json.dumps(adiffs[:3])[:600]))
+                ctx.broken.append(broken[-1])
+        stats["asm_operands"] = astats
+        ctx.say("asm operands: %r" % {k: v for k, v in astats.items() if k != "skipped_opcodes"})
+
     # (E1) direct oracle on the codec (independent of the model)
     swept = 0
     if hx:
@@ -606,7 +783,8 @@ def run(ctx):
                       what="no longer shown to hold: " + "; ".join(broken)[:900])
     samples = lines[:2] + lines[len(ints):len(ints) + 2] + [("graph %s/%s %s | %s" % (c[0], c[1], c[4][:60], c[5][:100])) for c in graph_cases[20:24]]
     cov = {
-        "evaluations": len(lines) + swept + 2 * gstats["cases"] + stats.get("damaged", {}).get("inputs", 0) + stats.get("code", {}).get("scenarios", 0),
+        "evaluations": len(lines) + swept + 2 * gstats["cases"] + stats.get("damaged", {}).get("inputs", 0) + stats.get("code", {}).get("scenarios", 0)
+                       + stats.get("asm_operands", {}).get("table_cases", 0) + stats.get("asm_operands", {}).get("compiled_cases", 0),
         "distinct_nontrivial": len(set(lines)) + len(set(c[5] for c in graph_cases)) + stats.get("code", {}).get("scenarios", 0),
         "rule": "ints: every width boundary +-3 and random magnitudes; u64: every 2^w +-2; byte strings: encodings, all truncations, every lead byte, random; "
                 "graphs: random pools of up to 45 values of every data type with back edges through arrays, tables (keys, values, prototypes), "
@@ -643,6 +821,16 @@ def replay(ctx, path):
                 if p[1] != "ok":
                     ctx.violation(r.get("signature", "graph-roundtrip"), r, what="still fails: " + p[1])
                 return ctx.finish("proof", {"evaluations": 1, "distinct_nontrivial": 1, "rule": "replay", "samples": [l[:200]]})
+    if kind == "asm" and r.get("line"):
+        hxa = ctx.build.harness("plain", "c09asmwords", [os.path.join(H, "asmwords.c")])
+        rc, out, err = run_cmd([hxa], input=(r["line"] + "\n").encode(), timeout=600, env=ENV)
+        o = out.decode(errors="replace").strip()
+        print("replayed:", o[:600])
+        parts = o.split(" ", 2)
+        still = rc != 0 or (parts[0] != "ok") != (r.get("signature", "").startswith("asm-accepts")) or (parts[0] == "ok" and len(parts) == 3 and parts[1] != parts[2])
+        if still:
+            ctx.violation(r.get("signature", "asm"), r, what="still fails: " + o[:300])
+        return ctx.finish("proof", {"evaluations": 1, "distinct_nontrivial": 1, "rule": "replay", "samples": [o[:200]]})
     if kind == "code":
         rc, out, err = run_cmd([janet, os.path.join(H, "code.janet"), str(r["code_seed"]), str(r["rounds"])], timeout=3000, env=ENV)
         for l in out.decode(errors="replace").splitlines():
